@@ -335,7 +335,8 @@ def writes_in(fn) -> List[Write]:
             for n in st.names:
                 out.append(Write("global" if isinstance(st, ast.Global) else "nonlocal", ast.Name(id=n, ctx=ast.Store()), st, st))
         if isinstance(st, ast.AugAssign) and isinstance(st.target, ast.Name) and isinstance(st.op, (ast.Add, ast.BitOr)) and not isinstance(st.value, (ast.Constant, ast.JoinedStr, ast.BinOp, ast.UnaryOp)) \
-                and not (isinstance(st.value, ast.Call) and isinstance(st.value.func, ast.Name) and st.value.func.id in ("len", "int", "str", "sum", "float", "abs", "min", "max", "format")):
+                and not (isinstance(st.value, ast.Call) and isinstance(st.value.func, ast.Name) and st.value.func.id in ("len", "int", "str", "sum", "float", "abs", "min", "max", "format", "repr", "chr")) \
+                and not (isinstance(st.value, ast.Call) and isinstance(st.value.func, ast.Attribute) and st.value.func.attr in ("decode", "format", "join", "strip", "lstrip", "rstrip", "lower", "upper", "replace", "strftime", "title", "zfill", "encode", "hex", "total_seconds", "count")):
             # `x += <sequence>` on a list / set / dict extends the object x names IN PLACE (an alias of a caller's or the
             # instance's list is changed); on numbers and strings it merely re-binds - the provenance rules sort it out
             out.append(Write("call:__iadd__", ast.copy_location(ast.Name(id=st.target.id, ctx=ast.Load()), st.target), st, st))
